@@ -17,6 +17,8 @@ def run(ctx):
     specs = util.corpus(ctx.prop) + gen.gen_many(ctx.seed, n, CFG, 'c18_')
     # nodes that have no dispatch in some steps (only windowed assets): gaps in the nodal rows
     specs += gen.gen_many(ctx.seed, n // 2, dict(CFG, p_market=0.5, p_window=0.8, window_kinds=['inside', 'left', 'right']), 'c18g_')
+    # prices in other units (cost coefficients of the order 1e4 .. 1e5)
+    specs += util.rescaled(gen.gen_many(ctx.seed, n // 3, dict(CFG, p_coarse=0.0, p_periodic=0.0), 'c18sc_'), 2.0 ** 13, 1.0)
     for sp in specs:
         sp['opts']['n_inj'] = 3 if ctx.tier == 'quick' else 8
     # split optimisation: prices of every interval land at the original steps (intervals of unequal length: partial last interval, DST)
